@@ -358,14 +358,18 @@ class cpu_guard:
     def __enter__(self):
         import signal
 
+        self._armed = True
+
         def _fire(sig, frm):
-            raise Hang()
+            if self._armed:      # a tick arriving while the guard is taken down must not raise
+                raise Hang()
         self._old = signal.signal(signal.SIGVTALRM, _fire)
         signal.setitimer(signal.ITIMER_VIRTUAL, self.seconds, 1.0)
         return self
 
     def __exit__(self, *exc):
         import signal
+        self._armed = False
         signal.setitimer(signal.ITIMER_VIRTUAL, 0)
         signal.signal(signal.SIGVTALRM, self._old)
         return False
